@@ -272,7 +272,7 @@ def main(argv=None):
     chk.trusted = ["T8 (Vercauteren's optimal-ate theorem; subfield factors vanish)", "T4 chord-and-tangent law", "C04 (tower arithmetic incl. multiply_by_c014, conjugate = q^6-Frobenius, frobenius_map)",
                    "C05/C06 for bilinearity in scalars", "engine/refpairing.py as the definition-level oracle for the generator value", "z3"]
     # lower layers whose specifications this check relies on: their obligations are part of this check's claim (framework.Check.include)
-    for dep in ['C02', 'C03', 'C04', 'C05', 'C19', 'C20']:
+    for dep in ['C02', 'C03', 'C04', 'C05', 'C06', 'C07', 'C19', 'C20']:      # C06/C07: the 'consequently e(aP,bQ) = e(P,Q)^(ab)' clause is about [a]P, [b]Q and g^(ab)
         chk.include(dep)
     # every pairing entry point goes through the shared multi-pair Miller loop; its identity short-circuit must skip a pair, not abandon the
     # product: C08's obligations for that routine
